@@ -20,7 +20,7 @@ import (
 func init() { register(&Engine{Name: "C12", Run: runC12, Bubble: true}) }
 
 func c12Domain() Domain {
-	return Domain{Untyped: true, EmptyStringElems: true, NilPtrElems: true, ZeroTimeElems: true, BigStrings: true, BigBinaries: true,
+	return Domain{Untyped: true, LooseDyn: true, EmptyStringElems: true, NilPtrElems: true, ZeroTimeElems: true, BigStrings: true, BigBinaries: true,
 		FarDates: true, AllDoubles: true, OddMaps: true, MaxListLen: 6, MaxMapLen: 4}
 }
 
